@@ -5,7 +5,7 @@ from .C02 import gen_tt_pattern, all_ranks_used
 
 A = {'scalar_mode': 'A', 'logic': 'QF_NRA', 'setup': {'factor_mode': 'exact'}}
 
-THOROUGH_SEEDS = 4
+THOROUGH_SEEDS = 6
 
 
 def cases(tier, seed):
